@@ -216,7 +216,7 @@ func TestC06(t *testing.T) {
 			cases = append(cases, vt.Normalize(c))
 		}
 		// strict endpoints that are down, through a real EndpointSet in front of the proxy
-		for i, n := 0, vt.Pick(60, 600); i < n; i++ {
+		for i, n := 0, vt.Pick(60, 200); i < n; i++ {
 			cases = append(cases, vt.Normalize(c06EndpointCase(rnd)))
 		}
 	}
